@@ -551,22 +551,18 @@ private theorem copies_nonempty (s : State) (hother : ∃ a ∈ base s, isCentre
 parameters, in the same child order, third-core symmetry, empty changer bookkeeping, no error**
 — for the third core *after* `convert`'s own edge-assembly removal (`base s`): when `s` had edge
 assemblies they are not put back (finding F10 / `restore-loses-edge-assemblies`). The hypotheses name the
-excluded points: a core without centre assembly (`restore` raises), a core of the centre assembly
-alone (`restore` does nothing), unflagged parameter definitions (centre not scaled). -/
+excluded points: a core of the centre assembly alone (`restore` does nothing), unflagged parameter
+definitions (centre not scaled). A core without centre assembly is covered (nothing to rescale). -/
 theorem restore_convert (s : State) (hf : s.full = false) (hca : s.convAdded = [])
     (hlt : ∀ a ∈ s.kids, a.id < s.next) (hsc : scalesCentre s = true)
-    (hcentre : ∃ a ∈ base s, isCentre a.cell = true)
     (hother : ∃ a ∈ base s, isCentre a.cell = false) :
-    (restore (convert s)).1.kids = base s ∧ (restore (convert s)).1.full = false ∧
-    (restore (convert s)).1.convAdded = [] ∧ (restore (convert s)).2 = false := by
-  obtain ⟨hscaled, hlist⟩ := loopOut_scaled s hsc hcentre
+    (restore (convert s)).kids = base s ∧ (restore (convert s)).full = false ∧
+    (restore (convert s)).convAdded = [] := by
   have hids := convLoop_ids ((base s).mergeSort leJI) s.next (s.flag || s.kids.any (fun a => on120 a.cell)) s.convList
   have hkids := convert_kids s hf
   have hadded : (convert s).convAdded = (loopOut s).copies.map (·.id) := by
     simp [convert, removeEdgeCore, hf, hca, loopOut, base]
-  have hcl : (convert s).convList = true := by
-    have : (convert s).convList = (loopOut s).convList := by simp [convert, removeEdgeCore, hf, loopOut, base]
-    rw [this, hlist]
+  have hcl : (convert s).convList = (loopOut s).convList := by simp [convert, removeEdgeCore, hf, loopOut, base]
   have hne : (convert s).convAdded.isEmpty = false := by
     rw [hadded]; simp [copies_nonempty s hother]
   set mapped := (base s).map (fun a => if isCentre a.cell && (loopOut s).scaled then scalePar 3 a else a) with hmapped
@@ -589,24 +585,20 @@ theorem restore_convert (s : State) (hf : s.full = false) (hca : s.convAdded = [
       simp only [Bool.not_eq_true', List.contains_eq_mem, decide_eq_false_iff_not, not_not]
       exact List.mem_map.2 ⟨b, hb, rfl⟩
     rw [h1, h2, List.append_nil]
-  have hocc : occupied mapped (0, 0) = true := by
-    obtain ⟨a, ha, hac⟩ := hcentre
-    simp only [occupied, List.any_eq_true]
-    refine ⟨_, List.mem_map.2 ⟨a, ha, rfl⟩, ?_⟩
-    have : (if isCentre a.cell && (loopOut s).scaled then scalePar 3 a else a).cell = a.cell := by split <;> rfl
-    rw [this]; simp [isCentre] at hac; simp [Prod.ext_iff, hac]
-  have hback : mapped.map (fun a => if isCentre a.cell && true then scalePar (1 / 3) a else a) = base s := by
+  have hback : mapped.map (fun a => if isCentre a.cell && (convert s).convList then scalePar (1 / 3) a else a)
+      = base s := by
     rw [hmapped, List.map_map]
     conv_rhs => rw [← List.map_id (base s)]
     apply List.map_congr_left
-    intro a _
-    simp only [Function.comp, id, hscaled, Bool.and_true]
+    intro a ha
+    simp only [Function.comp, id]
     cases hc : isCentre a.cell
     · simp [hc]
-    · have : isCentre (scalePar 3 a).cell = true := hc
-      simp only [this, if_true]; exact scalePar_inv a
+    · obtain ⟨hscaled, hlist⟩ := loopOut_scaled s hsc ⟨a, ha, hc⟩
+      have : isCentre (scalePar 3 a).cell = true := hc
+      simp only [hscaled, Bool.and_true, if_true, this, hcl, hlist]; exact scalePar_inv a
   unfold restore
-  simp only [hne, Bool.not_false, if_true, hfilter, hocc, hcl, hback]
+  simp only [hne, Bool.not_false, if_true, hfilter, hback]
   simp
 
 /-! ### edge assemblies -/
@@ -700,8 +692,8 @@ example : exCore.full = false ∧ (∀ a ∈ exCore.kids, inDomain a.cell = true
     (∃ a ∈ base exCore, isCentre a.cell = true) ∧ (∃ a ∈ base exCore, isCentre a.cell = false) ∧
     exCore.convAdded = [] ∧ exCore.edgeAdded = [] ∧ (∀ a ∈ exCore.kids, on120 a.cell = false) := by decide
 
-example : (restore (convert exCore)).1.kids = base exCore :=
-  (restore_convert exCore (by decide) (by decide) (by decide) (by decide) (by decide) (by decide)).1
+example : (restore (convert exCore)).kids = base exCore :=
+  (restore_convert exCore (by decide) (by decide) (by decide) (by decide) (by decide)).1
 
 example : parTotal (convert exCore).kids 0 = 3 * parTotal (base exCore) 0 :=
   par_totals_times_three exCore (by decide) (by decide) 0
@@ -815,7 +807,7 @@ private theorem third_removeEdge (B : List Assem) (s : State) (h : Third B s) : 
     · left; right; exact hc
     · left; left; right; exact he
 
-private theorem third_restore (B : List Assem) (s : State) (h : Third B s) : Third B (restore s).1 := by
+private theorem third_restore (B : List Assem) (s : State) (h : Third B s) : Third B (restore s) := by
   unfold restore
   simp only [h.noPending, List.isEmpty_nil, Bool.not_true, Bool.false_eq_true, if_false]
   exact ⟨h.third, rfl, h.content, h.ids, h.scales⟩
@@ -826,18 +818,18 @@ private theorem convert_next_ge (s : State) (hf : s.full = false) : s.next ≤ (
   rw [this]; unfold loopOut; omega
 
 private theorem third_restore_convert (B : List Assem) (t : State) (h : Third B t)
-    (hc : ∃ a ∈ B, isCentre a.cell = true) (ho : ∃ a ∈ B, isCentre a.cell = false) :
-    Third B (restore (convert t)).1 := by
-  obtain ⟨hk, hf, hca, _⟩ := restore_convert t h.third h.noPending h.ids h.scales
-    (by rw [h.content]; exact hc) (by rw [h.content]; exact ho)
-  have hnext : (restore (convert t)).1.next = (convert t).next := by
-    unfold restore; dsimp only; split <;> (try split) <;> rfl
-  have hflag : (restore (convert t)).1.flag = true := by
+    (ho : ∃ a ∈ B, isCentre a.cell = false) :
+    Third B (restore (convert t)) := by
+  obtain ⟨hk, hf, hca⟩ := restore_convert t h.third h.noPending h.ids h.scales
+    (by rw [h.content]; exact ho)
+  have hnext : (restore (convert t)).next = (convert t).next := by
+    unfold restore; dsimp only; split <;> rfl
+  have hflag : (restore (convert t)).flag = true := by
     have hne : (convert t).convAdded.isEmpty = false := by
       have : (convert t).convAdded = (loopOut t).copies.map (·.id) := by
         simp [convert, removeEdgeCore, h.third, h.noPending, loopOut, base]
       rw [this]; simp [copies_nonempty t (by rw [h.content]; exact ho)]
-    unfold restore; dsimp only; simp only [hne, Bool.not_false, if_true]; split <;> rfl
+    unfold restore; dsimp only; simp only [hne, Bool.not_false, if_true]
   refine ⟨hf, hca, ?_, ?_, ?_⟩
   · rw [base_filter_idem t.kids _ (by rw [hk]; rfl), hk]; exact h.content
   · intro a ha
@@ -853,10 +845,10 @@ private theorem removeEdge_of_full (s : State) (h : s.full = true) : removeEdge 
 
 /-- **every state reachable by any sequence of convert / restore / addEdge / removeEdge from a third core is
 either a third-core state holding exactly the original non-edge assemblies (same places, same parameters, same
-order) or the full-core conversion of such a state** — under the start conditions: the core has a centre
-assembly, another assembly, and an assembly on the 0° line (see the excluded-point findings). -/
+order) or the full-core conversion of such a state** — under the start conditions: the core has a non-centre
+assembly and an assembly on the 0° line (see the excluded-point findings). -/
 theorem good_step (B : List Assem) (s : State) (op : Op) (hG : Good B s)
-    (hc : ∃ a ∈ B, isCentre a.cell = true) (ho : ∃ a ∈ B, isCentre a.cell = false)
+    (ho : ∃ a ∈ B, isCentre a.cell = false)
     (h0 : ∃ a ∈ B, on0 a.cell = true) : Good B (step s op) := by
   rcases hG with h | ⟨t, ht, rfl⟩
   · cases op with
@@ -867,16 +859,16 @@ theorem good_step (B : List Assem) (s : State) (op : Op) (hG : Good B s)
   · have hfull : (convert t).full = true := convert_full t ht.third
     cases op with
     | convert => exact Or.inr ⟨t, ht, convert_of_full _ hfull⟩
-    | restore => exact Or.inl (third_restore_convert B t ht hc ho)
+    | restore => exact Or.inl (third_restore_convert B t ht ho)
     | addEdge => exact Or.inr ⟨t, ht, addEdge_of_full _ hfull⟩
     | removeEdge => exact Or.inr ⟨t, ht, removeEdge_of_full _ hfull⟩
 
 theorem good_run (B : List Assem) (ops : List Op) (s : State) (hG : Good B s)
-    (hc : ∃ a ∈ B, isCentre a.cell = true) (ho : ∃ a ∈ B, isCentre a.cell = false)
+    (ho : ∃ a ∈ B, isCentre a.cell = false)
     (h0 : ∃ a ∈ B, on0 a.cell = true) : Good B (run s ops) := by
   induction ops generalizing s with
   | nil => exact hG
-  | cons op rest ih => exact ih (step s op) (good_step B s op hG hc ho h0)
+  | cons op rest ih => exact ih (step s op) (good_step B s op hG ho h0)
 
 
 /-- a third core as loaded (fresh changers, parameters assigned) is a reachable state over its own content -/
@@ -888,10 +880,10 @@ theorem good_init (s : State) (hf : s.full = false) (hca : s.convAdded = []) (hi
 (ids), same cells, same payloads, orientations and parameters, same child order — after any history. -/
 theorem run_third_content (s : State) (ops : List Op) (hf : s.full = false) (hca : s.convAdded = [])
     (hids : ∀ a ∈ s.kids, a.id < s.next) (hflag : s.flag = true)
-    (hc : ∃ a ∈ base s, isCentre a.cell = true) (ho : ∃ a ∈ base s, isCentre a.cell = false)
+    (ho : ∃ a ∈ base s, isCentre a.cell = false)
     (h0 : ∃ a ∈ base s, on0 a.cell = true) (hthird : (run s ops).full = false) :
     base (run s ops) = base s := by
-  rcases good_run (base s) ops s (good_init s hf hca hids hflag) hc ho h0 with h | ⟨t, ht, he⟩
+  rcases good_run (base s) ops s (good_init s hf hca hids hflag) ho h0 with h | ⟨t, ht, he⟩
   · exact h.content
   · rw [he, convert_full t ht.third] at hthird; exact absurd hthird (by simp)
 
@@ -899,15 +891,15 @@ theorem run_third_content (s : State) (ops : List Op) (hf : s.full = false) (hca
 `full_cells_are_orbits`, `count_times_three`, `par_totals_times_three`, `geo_totals_times_three` apply to it. -/
 theorem run_full_is_conversion (s : State) (ops : List Op) (hf : s.full = false) (hca : s.convAdded = [])
     (hids : ∀ a ∈ s.kids, a.id < s.next) (hflag : s.flag = true)
-    (hc : ∃ a ∈ base s, isCentre a.cell = true) (ho : ∃ a ∈ base s, isCentre a.cell = false)
+    (ho : ∃ a ∈ base s, isCentre a.cell = false)
     (h0 : ∃ a ∈ base s, on0 a.cell = true) (hfull : (run s ops).full = true) :
     ∃ t, t.full = false ∧ base t = base s ∧ scalesCentre t = true ∧ run s ops = convert t := by
-  rcases good_run (base s) ops s (good_init s hf hca hids hflag) hc ho h0 with h | ⟨t, ht, he⟩
+  rcases good_run (base s) ops s (good_init s hf hca hids hflag) ho h0 with h | ⟨t, ht, he⟩
   · rw [h.third] at hfull; exact absurd hfull (by simp)
   · exact ⟨t, ht.third, ht.content, ht.scales, he⟩
 
 example : Good (base exCore)
     (run exCore [.addEdge, .convert, .addEdge, .restore, .addEdge, .removeEdge, .convert, .restore]) :=
-  good_run _ _ _ (good_init exCore (by decide) (by decide) (by decide) (by decide)) (by decide) (by decide) (by decide)
+  good_run _ _ _ (good_init exCore (by decide) (by decide) (by decide) (by decide)) (by decide) (by decide)
 
 end ArmiVerif.Sym3
